@@ -1,8 +1,8 @@
 package sim
 
 import (
-	"context"
 	"container/heap"
+	"context"
 	"fmt"
 	"hash/fnv"
 	"math/rand"
@@ -46,10 +46,10 @@ func (h eventHeap) Less(i, j int) bool {
 	}
 	return h[i].Seq < h[j].Seq
 }
-func (h eventHeap) Swap(i, j int)  { h[i], h[j] = h[j], h[i]; h[i].idx = i; h[j].idx = j }
-func (h *eventHeap) Push(x any)    { e := x.(*Event); e.idx = len(*h); *h = append(*h, e) }
-func (h *eventHeap) Pop() any      { o := *h; n := len(o); e := o[n-1]; *h = o[:n-1]; return e }
-func (h eventHeap) peek() *Event   { return h[0] }
+func (h eventHeap) Swap(i, j int) { h[i], h[j] = h[j], h[i]; h[i].idx = i; h[j].idx = j }
+func (h *eventHeap) Push(x any)   { e := x.(*Event); e.idx = len(*h); *h = append(*h, e) }
+func (h *eventHeap) Pop() any     { o := *h; n := len(o); e := o[n-1]; *h = o[:n-1]; return e }
+func (h eventHeap) peek() *Event  { return h[0] }
 
 // Policy is the scheduling policy of a run (drawn from the cfg stream).
 type Policy struct {
@@ -152,9 +152,9 @@ func (s *Sim) Failed() bool { s.hmu.Lock(); defer s.hmu.Unlock(); return len(s.v
 
 func (s *Sim) Count(k string) { s.hmu.Lock(); s.Stats[k]++; s.hmu.Unlock() }
 
-func (s *Sim) OnStep(f func())         { s.onStep = append(s.onStep, f) }
-func (s *Sim) DoneWhen(f func() bool)  { s.doneFn = f }
-func (s *Sim) AtEnd(f func())          { s.atEnd = append(s.atEnd, f) }
+func (s *Sim) OnStep(f func())        { s.onStep = append(s.onStep, f) }
+func (s *Sim) DoneWhen(f func() bool) { s.doneFn = f }
+func (s *Sim) AtEnd(f func())         { s.atEnd = append(s.atEnd, f) }
 func (s *Sim) Tracef(f string, a ...any) {
 	if s.traceOn {
 		s.addTrace(fmt.Sprintf("    | "+f, a...))
